@@ -136,17 +136,49 @@ func specSameDomain() polSpec {
 		permit: func(t authority, via []authority) bool { return oracleDomain(t) == oracleDomain(via[0]) }}
 }
 
-func specAllowed(domain bool, as []authority) polSpec {
+// mkAllowed builds an AllowedHost/AllowedDomain policy the way callers do - from a slice - and then
+// treats that slice as its own again: what a policy names is fixed when it is built.
+//   mode 1: every entry overwritten and the slice appended to after the call
+//   mode 2: two policies from slices sharing one backing array (append on a common prefix with spare capacity)
+//   mode 3: the same slice used for two policies, the second one is returned
+func mkAllowed(domain bool, hs []string, mode int) req.RedirectPolicy {
+	f := req.AllowedHostRedirectPolicy
+	if domain {
+		f = req.AllowedDomainRedirectPolicy
+	}
+	arg := make([]string, len(hs), len(hs)+2)
+	copy(arg, hs)
+	switch mode {
+	case 1:
+		p := f(arg...)
+		for i := range arg {
+			arg[i] = "scribbled.invalid"
+		}
+		_ = append(arg, "scribbled.invalid")
+		return p
+	case 2:
+		if len(hs) > 0 {
+			base := arg[:len(arg)-1]
+			p := f(append(base, hs[len(hs)-1])...)
+			_ = f(append(base, "other.invalid")...)
+			return p
+		}
+	case 3:
+		_ = f(arg...)
+	}
+	return f(arg...)
+}
+
+func specAllowed(domain bool, as []authority, mode int) polSpec {
 	var hs []string
 	for _, a := range as {
 		hs = append(hs, a.render())
 	}
 	id, name := oracleHostname, "PAllowedHost "
-	mk := func() req.RedirectPolicy { return req.AllowedHostRedirectPolicy(hs...) }
 	if domain {
 		id, name = oracleDomain, "PAllowedDomain "
-		mk = func() req.RedirectPolicy { return req.AllowedDomainRedirectPolicy(hs...) }
 	}
+	mk := func() req.RedirectPolicy { return mkAllowed(domain, hs, mode) }
 	return polSpec{coq: name + hk.CoqStrList(hs), desc: name[1:] + "(" + strings.Join(hs, ",") + ")", mk: mk, limit: -1, permit: func(t authority, via []authority) bool {
 		for _, a := range as {
 			if id(a) == id(t) {
@@ -194,7 +226,7 @@ func genSpec(rng *hk.Rand, pool []authority) polSpec {
 		for j := 0; j < n; j++ {
 			as = append(as, pool[rng.Intn(len(pool))])
 		}
-		return specAllowed(rng.Bool(), as)
+		return specAllowed(rng.Bool(), as, rng.Intn(4))
 	case 5:
 		return specAlwaysCopy(rng)
 	case 6:
@@ -258,6 +290,28 @@ type c11Plan struct {
 	body       string
 	cred       int    // where Authorization and Cookie are set: 0 on the request, 1 client-level common headers, 2 client-level helpers
 	hdr        [5]int // number of values of each of c11Hdr on the first request
+	rel        []bool // hop j's Location is relative
+	override   string // Host header override on the first request ("" = none)
+}
+
+// genOverride gives the first request a Host header naming another host - often the very host a
+// later redirect points to.  Host identity is the URL's hostname: the override must not matter.
+func genOverride(rng *hk.Rand, p *c11Plan, pct int) {
+	if !rng.Chance(pct) {
+		return
+	}
+	var a authority
+	if len(p.targetAuth) > 0 && rng.Chance(60) {
+		a = p.targetAuth[rng.Intn(len(p.targetAuth))]
+	} else {
+		a = noZone(rng, func() authority { return genAuthority(rng) })
+	}
+	if a.Port != nil && *a.Port == "" {
+		a.Port = nil
+	}
+	if a.render() != p.init.render() {
+		p.override = a.render()
+	}
 }
 
 // genHdr draws the caller's header set: any subset of the sensitive headers, one or two values each
@@ -354,6 +408,7 @@ func genPlan(rng *hk.Rand, init authority, hops int, others []authority, friendl
 		}
 		p.targetAuth = append(p.targetAuth, t)
 		p.targets = append(p.targets, t.render())
+		p.rel = append(p.rel, rel)
 		if rel {
 			p.loc = append(p.loc, fmt.Sprintf("/next%d", j))
 		} else {
@@ -366,13 +421,14 @@ func genPlan(rng *hk.Rand, init authority, hops int, others []authority, friendl
 }
 
 func (p c11Plan) desc() map[string]interface{} {
-	return map[string]interface{}{"init": p.init.render(), "targets": p.targets, "location": p.loc, "status": p.status, "method": p.method, "cred": p.cred, "headers": p.hdr}
+	return map[string]interface{}{"init": p.init.render(), "targets": p.targets, "location": p.loc, "status": p.status, "method": p.method, "cred": p.cred, "headers": p.hdr, "host-override": p.override}
 }
 
 type c11Result struct {
 	obs     []c11Hit
 	refused bool
 	err     string
+	urlHost []string // per hit: the URL host the request was for (filled by judgeChain when the Host header is as expected)
 }
 
 // runChain sends the plan's first request through [c] and reports what the origin saw.
@@ -381,6 +437,9 @@ func runChain(o *c11Origin, c *req.Client, id string, p c11Plan, gate *c11Gate) 
 	o.scripts[id] = &c11Script{loc: p.loc, status: p.status, gate: gate}
 	o.mu.Unlock()
 	rq := c.R().SetHeader("X-Chain", id)
+	if p.override != "" {
+		rq.SetHeader("Host", p.override)
+	}
 	vals := [][2]string{{"Bearer secret", "Bearer second"}, {"Basic realm=x", "Basic realm=y"}, {"sid=secret", "lang=en"}, {"$Version=1", "$Version=2"}, {"tok", "tok2"}}
 	for k, n := range c11Hdr {
 		if p.cred != 0 && (k == 0 || k == 2) {
@@ -420,16 +479,31 @@ func applyClientCreds(c *req.Client, cred int) {
 }
 
 // judgeChain: the property decided on the observation, without the model.
-func judgeChain(r *hk.Run, kind string, specs []polSpec, p c11Plan, res c11Result, input map[string]interface{}) {
+func judgeChain(r *hk.Run, kind string, specs []polSpec, p c11Plan, res *c11Result, input map[string]interface{}) {
 	obs := res.obs
 	fail := func(f hk.Failure) { r.Count("oracle-failures." + kind); r.Fail(f) } // counted beyond hk's cap of recorded failures
 	// structure: the hosts contacted are the initial host followed by a prefix of the targets
+	// the Host header on the wire: the URL's host - except that a Host override travels with the first
+	// request and (net/http Client.do, issue 22233) on through an unbroken run of RELATIVE Locations: the
+	// previous request's Host field is kept when it is set, differs from that request's URL host and the
+	// Location is relative; an absolute Location clears it for the rest of the chain
 	okPrefix := len(obs) >= 1 && len(obs) <= len(p.targets)+1
 	if okPrefix {
 		exp := append([]string{p.init.render()}, p.targets...)
+		hostField := p.override
 		for k, h := range obs {
-			if strings.TrimSuffix(exp[k], ":") != strings.TrimSuffix(h.Host, ":") {
+			if k > 0 && !(p.rel[k-1] && hostField != "" && hostField != exp[k-1]) {
+				hostField = ""
+			}
+			wire := exp[k]
+			if hostField != "" {
+				wire = hostField
+			}
+			if strings.TrimSuffix(wire, ":") != strings.TrimSuffix(h.Host, ":") {
 				okPrefix = false
+				res.urlHost = append(res.urlHost, h.Host)
+			} else {
+				res.urlHost = append(res.urlHost, exp[k])
 			}
 		}
 	}
@@ -533,10 +607,14 @@ func judgeChain(r *hk.Run, kind string, specs []polSpec, p c11Plan, res c11Resul
 	}
 }
 
-func coqObs(obs []c11Hit) string {
+func coqObs(res c11Result) string {
 	var xs []string
-	for _, h := range obs {
-		xs = append(xs, hk.CoqPair(hk.CoqStr(h.Host), coqHdrs(h.H)))
+	for k, h := range res.obs {
+		host := h.Host
+		if k < len(res.urlHost) {
+			host = res.urlHost[k] // = the Host header unless an override was (correctly) on the wire
+		}
+		xs = append(xs, hk.CoqPair(hk.CoqStr(host), coqHdrs(h.H)))
 	}
 	return hk.CoqList(xs)
 }
@@ -570,6 +648,7 @@ func c11Single(r *hk.Run, rng *hk.Rand, o *c11Origin, n int) {
 			specs[0], specs[len(specs)-1] = specs[len(specs)-1], specs[0]
 		}
 		genHdr(rng, &p, []int{0, 0, 1, 2})
+		genOverride(rng, &p, 25)
 		c := req.C().SetRedirectPolicy(specsMk(specs)...).SetDial(o.dial)
 		applyClientCreds(c, p.cred)
 		res := runChain(o, c, fmt.Sprintf("s%d", i), p, nil)
@@ -577,7 +656,7 @@ func c11Single(r *hk.Run, rng *hk.Rand, o *c11Origin, n int) {
 		coqPs, plain := specsCoq(specs)
 		in := p.desc()
 		in["policies"] = plain
-		judgeChain(r, "chain", specs, p, res, in)
+		judgeChain(r, "chain", specs, p, &res, in)
 		r.Count(fmt.Sprintf("chain.credlevel=%d", p.cred))
 		r.Count(fmt.Sprintf("chain.hops=%d", len(p.targets)))
 		r.Count(fmt.Sprintf("chain.refused=%v", res.refused))
@@ -586,7 +665,7 @@ func c11Single(r *hk.Run, rng *hk.Rand, o *c11Origin, n int) {
 		if lim := specsLimit(specs); lim >= 0 {
 			r.Count(fmt.Sprintf("chain.hops-limit=%+d", len(p.targets)-lim))
 		}
-		r.Add(hk.Case{Coq: fmt.Sprintf("ChainCase %s %s %s %s %s %s", coqPs, hk.CoqStr(p.init.render()), p.coqHdr(), hk.CoqStrList(p.targets), coqObs(res.obs), hk.CoqBool(res.refused)),
+		r.Add(hk.Case{Coq: fmt.Sprintf("ChainCase %s %s %s %s %s %s", coqPs, hk.CoqStr(p.init.render()), p.coqHdr(), hk.CoqStrList(p.targets), coqObs(res), hk.CoqBool(res.refused)),
 			Desc: map[string]interface{}{"kind": "chain", "policies": plain, "plan": p.desc(), "observed": res.obs, "refused": res.refused}},
 			"c|"+strings.Join(plain, ",")+"|"+p.init.render()+"|"+strings.Join(p.targets, ","), len(p.targets) >= 2)
 	}
@@ -600,7 +679,7 @@ func strictSpecs(rng *hk.Rand, pool []authority) []polSpec {
 	case 1:
 		return []polSpec{specMax(rng.Range(0, 1))}
 	case 2:
-		return []polSpec{specAllowed(false, pool[:1])}
+		return []polSpec{specAllowed(false, pool[:1], rng.Intn(4))}
 	}
 	return []polSpec{specSameHost(), specMax(3)}
 }
@@ -641,13 +720,27 @@ func c11Clients(r *hk.Run, rng *hk.Rand, o *c11Origin, n int) {
 			ops, opsDesc = append(ops, "ONew"), append(opsDesc, "C()")
 		}
 		opSet := func(k int, specs []polSpec) {
-			world[k].c.SetRedirectPolicy(specsMk(specs)...)
+			ps := specsMk(specs)
+			reusedNote := ""
+			world[k].c.SetRedirectPolicy(ps...)
+			if len(ps) > 0 && rng.Chance(40) {
+				// the caller goes on using its slice: what the client enforces was fixed by the call
+				for j := range ps {
+					if rng.Bool() {
+						ps[j] = nil
+					} else {
+						ps[j] = req.NoRedirectPolicy()
+					}
+				}
+				r.Count("client.set.slice-reused")
+				reusedNote = " - the caller then overwrites the slice it passed"
+			}
 			if len(specs) > 0 {
 				world[k].specs = specs
 			}
 			l, plain := specsCoq(specs)
 			ops = append(ops, fmt.Sprintf("OSet %s %s", hk.CoqNat(k), l))
-			opsDesc = append(opsDesc, fmt.Sprintf("c%d.SetRedirectPolicy(%s)", k, strings.Join(plain, ", ")))
+			opsDesc = append(opsDesc, fmt.Sprintf("c%d.SetRedirectPolicy(%s)%s", k, strings.Join(plain, ", "), reusedNote))
 			if nClone > 0 {
 				setAfterClone = true
 			}
@@ -664,14 +757,15 @@ func c11Clients(r *hk.Run, rng *hk.Rand, o *c11Origin, n int) {
 			}
 			p := genPlan(rng, init, hopsFor(rng, specsLimit(world[k].specs)), pool, rng.Bool())
 			genHdr(rng, &p, []int{0})
+			genOverride(rng, &p, 15)
 			res := runChain(o, world[k].c, fmt.Sprintf("q%d.%d", i, nDo), p, nil)
 			nDo++
 			_, plain := specsCoq(world[k].specs)
 			opsDesc = append(opsDesc, fmt.Sprintf("c%d: %s http://%s/start -> %s", k, p.method, p.init.render(), strings.Join(p.loc, " -> ")))
 			in := map[string]interface{}{"ops": append([]string(nil), opsDesc...), "client": k, "policies-of-that-client": plain, "plan": p.desc()}
-			judgeChain(r, "client", world[k].specs, p, res, in)
+			judgeChain(r, "client", world[k].specs, p, &res, in)
 			ops = append(ops, fmt.Sprintf("ODo %s %s %s %s", hk.CoqNat(k), hk.CoqStr(p.init.render()), p.coqHdr(), hk.CoqStrList(p.targets)))
-			coqOuts = append(coqOuts, hk.CoqPair(coqObs(res.obs), hk.CoqBool(res.refused)))
+			coqOuts = append(coqOuts, hk.CoqPair(coqObs(res), hk.CoqBool(res.refused)))
 			r.Count(fmt.Sprintf("client.do.sent=%d", len(res.obs)))
 			r.Count(fmt.Sprintf("client.do.refused=%v", res.refused))
 		}
@@ -764,6 +858,7 @@ func c11Concurrent(r *hk.Run, rng *hk.Rand, o *c11Origin, n int) {
 		for j := 0; j < m; j++ {
 			p := genPlan(rng, inits[j], 1+hopsFor(rng, specsLimit(specs)), inits, true)
 			genHdr(rng, &p, []int{0})
+			genOverride(rng, &p, 15)
 			ch := &chain{id: fmt.Sprintf("g%d.%d", i, j), p: p, gate: &c11Gate{arrived: make(chan struct{}, 64), release: make(chan struct{}, 64)}, done: make(chan c11Result, 1)}
 			chains = append(chains, ch)
 		}
@@ -829,9 +924,9 @@ func c11Concurrent(r *hk.Run, rng *hk.Rand, o *c11Origin, n int) {
 		for j, ch := range chains {
 			res := *results[j]
 			in := map[string]interface{}{"policies": plain, "chains": planDesc, "schedule": sched, "chain": j}
-			judgeChain(r, "conc", specs, ch.p, res, in)
+			judgeChain(r, "conc", specs, ch.p, &res, in)
 			coqChains = append(coqChains, "("+hk.CoqStr(ch.p.init.render())+", "+ch.p.coqHdr()+", "+hk.CoqStrList(ch.p.targets)+")")
-			coqOuts = append(coqOuts, hk.CoqPair(coqObs(res.obs), hk.CoqBool(res.refused)))
+			coqOuts = append(coqOuts, hk.CoqPair(coqObs(res), hk.CoqBool(res.refused)))
 			keyParts = append(keyParts, ch.p.init.render()+">"+strings.Join(ch.p.targets, ","))
 			if len(ch.p.targets) >= 1 {
 				nHop++
